@@ -157,7 +157,32 @@ var hosts = []string{
 	"deep.x.www.c.example.org", "d.example.net", "z.example.net", "example.com",
 }
 
-var qtypes = []uint16{dns.TypeA, dns.TypeA, dns.TypeAAAA, dns.TypeHTTPS, dns.TypeTXT}
+// Question types.  CAA (257) and 284 equal A (1) and AAAA (28) modulo 256, and
+// CNAME is the type of the answers that are filtered: a cache key that loses a
+// part of the question makes these collide with each other.
+var qtypes = []uint16{dns.TypeA, dns.TypeA, dns.TypeAAAA, dns.TypeHTTPS, dns.TypeTXT, dns.TypeCAA, dns.TypeCNAME, 284}
+
+// panicList marks a pseudo-result that stands for a panic of the real filter.
+const panicList filter.ID = "PANIC"
+
+// guard runs one call of the real filter and turns a panic into a pseudo-result,
+// so that the oracle reports it with the history that led to it.
+func guard(call func() (filter.Result, error), what string) (res filter.Result) {
+	defer func() {
+		if v := recover(); v != nil {
+			res = &filter.ResultBlocked{List: panicList, Rule: filter.RuleText(fmt.Sprint(v))}
+		}
+	}()
+	res, err := call()
+	if err != nil {
+		panic(fmt.Errorf("%s: %w", what, err))
+	}
+
+	return res
+}
+
+// isPanic reports whether the canonical result text stands for a panic.
+func isPanic(canon string) bool { return strings.Contains(canon, "list="+string(panicList)+" ") }
 
 // rule is one rule of the generator's grammar.
 type rule struct {
@@ -475,12 +500,13 @@ func (s *store) filterReq(conf filter.Config, req *filter.Request, uncached bool
 		s.mgr.clearAll()
 	}
 	f := s.st.ForConfig(context.Background(), conf)
-	res, err := f.FilterRequest(context.Background(), req)
-	if err != nil {
-		panic(fmt.Errorf("FilterRequest: %w", err))
-	}
 
-	return res
+	return guard(func() (filter.Result, error) { return f.FilterRequest(context.Background(), req) }, "FilterRequest")
+}
+
+// filterWith runs one request through a filter obtained earlier.
+func (s *store) filterWith(f filter.Interface, req *filter.Request) filter.Result {
+	return guard(func() (filter.Result, error) { return f.FilterRequest(context.Background(), req) }, "FilterRequest")
 }
 
 func (s *store) filterResp(conf filter.Config, resp *filter.Response, uncached bool) filter.Result {
@@ -488,12 +514,8 @@ func (s *store) filterResp(conf filter.Config, resp *filter.Response, uncached b
 		s.mgr.clearAll()
 	}
 	f := s.st.ForConfig(context.Background(), conf)
-	res, err := f.FilterResponse(context.Background(), resp)
-	if err != nil {
-		panic(fmt.Errorf("FilterResponse: %w", err))
-	}
 
-	return res
+	return guard(func() (filter.Result, error) { return f.FilterResponse(context.Background(), resp) }, "FilterResponse")
 }
 
 func clientConf(custom *filter.ConfigCustom, lists []string, svcs []string, safe, adult, danger bool) *filter.ConfigClient {
@@ -543,7 +565,7 @@ func genRules(rng *rand.Rand, kinds []string, withClient bool) (rs []rule) {
 // evaluation.
 
 type slOp struct {
-	kind   string // refresh q qr
+	kind   string // refresh q qr hold qh
 	rules  []rule
 	ver    int
 	client string
@@ -564,6 +586,10 @@ func (op slOp) String() string {
 		return fmt.Sprintf("refresh v%d %s", op.ver, strings.Join(toks, " "))
 	case "q":
 		return fmt.Sprintf("q %s %s qt=%d p%d edns=%v", op.client, op.host, op.qt, op.prof, op.edns)
+	case "hold":
+		return "hold"
+	case "qh":
+		return fmt.Sprintf("qh %s %s qt=%d p%d edns=%v", op.client, op.host, op.qt, op.prof, op.edns)
 	default:
 		return fmt.Sprintf("qr %s cname->%s", op.client, op.host)
 	}
@@ -603,6 +629,7 @@ func genSingleList(rng *rand.Rand, mode string, withClient bool, length int) (op
 		kinds = []string{"B", "B", "A", "T"}
 	}
 	ver := 1
+	held := false
 	ops = append(ops, slOp{kind: "refresh", ver: ver, rules: genRules(rng, kinds, withClient)})
 	for len(ops) < length {
 		switch x := rng.IntN(20); {
@@ -611,6 +638,18 @@ func genSingleList(rng *rand.Rand, mode string, withClient bool, length int) (op
 			ops = append(ops, slOp{kind: "refresh", ver: ver, rules: genRules(rng, kinds, withClient)})
 		case x < 6 && mode != "ss":
 			ops = append(ops, slOp{kind: "qr", client: clients[rng.IntN(2)], host: hosts[rng.IntN(len(hosts))]})
+		case x < 8:
+			// A request that obtained its filter earlier (possibly before a
+			// refresh) and uses it now.
+			if !held || rng.IntN(3) == 0 {
+				held = true
+				ops = append(ops, slOp{kind: "hold"})
+			} else {
+				ops = append(ops, slOp{
+					kind: "qh", client: clients[rng.IntN(2)], host: hosts[rng.IntN(len(hosts))],
+					qt: qtypes[rng.IntN(len(qtypes))], prof: rng.IntN(len(profiles)), edns: rng.IntN(2) == 0,
+				})
+			}
 		default:
 			ops = append(ops, slOp{
 				kind: "q", client: clients[rng.IntN(2)], host: hosts[rng.IntN(len(hosts))],
@@ -685,8 +724,10 @@ func runSingleList(r *hlib.Result, m *hlib.Model, mode string, capn int, withCli
 	}
 	var seen []obs
 	var cur slOp
+	var heldFlt filter.Interface
+	heldAt := -1
 	first := true
-	nFiltered, nNone, nRefresh := 0, 0, 0
+	nFiltered, nNone, nRefresh, nHeldOld := 0, 0, 0, 0
 	for _, op := range ops {
 		switch op.kind {
 		case "refresh":
@@ -700,17 +741,39 @@ func runSingleList(r *hlib.Result, m *hlib.Model, mode string, capn int, withCli
 				toks = append(toks, ru.tok())
 			}
 			lines = append(lines, strings.TrimSpace(fmt.Sprintf("rl refresh %d %s", op.ver, strings.Join(toks, " "))))
-		case "q":
+		case "hold":
+			heldFlt, heldAt = a.st.ForConfig(context.Background(), conf), nRefresh
+		case "q", "qh":
 			p := profiles[op.prof]
-			ra := a.filterReq(conf, newReq(op.host, op.qt, op.edns, p, op.client), false)
+			var ra filter.Result
+			if op.kind == "qh" {
+				if heldFlt == nil {
+					continue
+				}
+				ra = a.filterWith(heldFlt, newReq(op.host, op.qt, op.edns, p, op.client))
+				if mode != "ss" && heldAt != nRefresh {
+					// The filter object was replaced by a refresh: the in-flight
+					// request may still see the old list, and it must not leave
+					// anything behind for later requests.
+					nHeldOld++
+
+					continue
+				}
+			} else {
+				ra = a.filterReq(conf, newReq(op.host, op.qt, op.edns, p, op.client), false)
+			}
 			rb := b.filterReq(conf, newReq(op.host, op.qt, op.edns, p, op.client), true)
 			ob := obs{line: -1, tok: resTok(ra), canonA: resCanon(ra), canB: resCanon(rb)}
-			ssSkip := mode == "ss" && op.qt == dns.TypeTXT
-			if ssSkip {
+			ob.line = len(lines)
+			if mode == "ss" {
+				// Direct evaluation: only A, AAAA and HTTPS questions are rewritten.
 				ob.want = "none"
+				if op.qt == dns.TypeA || op.qt == dns.TypeAAAA || op.qt == dns.TypeHTTPS {
+					ob.want = evalRules(cur.rules, cur.ver, op.host, op.client, 2*int(op.qt))
+				}
+				lines = append(lines, fmt.Sprintf("ss q %s %s %d", op.client, op.host, op.qt))
 			} else {
 				ob.want = evalRules(cur.rules, cur.ver, op.host, op.client, 2*int(op.qt))
-				ob.line = len(lines)
 				lines = append(lines, fmt.Sprintf("rl q %s %s %d", op.client, op.host, 2*int(op.qt)))
 			}
 			seen = append(seen, ob)
@@ -745,6 +808,12 @@ func runSingleList(r *hlib.Result, m *hlib.Model, mode string, capn int, withCli
 			want = strings.NewReplacer("C", "B", "T", "B").Replace(strings.SplitN(want, ":", 2)[0])
 		}
 		// Property oracle first (only for lists without client-specific rules).
+		if isPanic(ob.canonA) && fail == "" {
+			fail = "filter-panics-" + mode
+			if record {
+				r.Violate(fail, "the filter panicked: "+ob.canonA, replay())
+			}
+		}
 		if !withClient {
 			if ob.canonA != ob.canB && fail == "" {
 				fail = "cache-changes-verdict-" + mode
@@ -781,6 +850,7 @@ func runSingleList(r *hlib.Result, m *hlib.Model, mode string, capn int, withCli
 		r.Distribution["single.answers_filtered"] += nFiltered
 		r.Distribution["single.answers_none"] += nNone
 		r.Distribution["single.refreshes"] += nRefresh
+		r.Distribution["single.requests_with_replaced_filter"] += nHeldOld
 		r.ModelOps += len(lines)
 		r.Traces++
 		r.Case(strings.Join(lines, "\n"), nRefresh > 1 && nFiltered > 0 && nNone > 0)
